@@ -12,7 +12,8 @@ ID = "C03"
 BUDGET = {"quick": 160000, "thorough": 4000000}
 REQUIRED = ["contract:Chop.calculate", "class:truth", "class:unrealisable", "judged:not-coarser", "judged:inverted",
             "branch:uniform", "branch:r<1", "branch:r>1", "judged:grading-inverted",
-            "judged:inverted:fresh-object", "judged:inverted:same-object-after-calculate"]
+            "judged:inverted:fresh-object", "judged:inverted:same-object-after-calculate",
+            "judged:multigrading-description", "judged:multigrading-inverted"]
 MIN_KEYS = 40
 RULE = (
     "L = 10^U(-3,3); a consistent 'truth' progression (n in 1..200, r in [0.5,2], densified at 1 +- {0,3e-8,9e-8,1.1e-7,"
@@ -41,9 +42,74 @@ def truth(L, n, r):
     return {"count": n, "start_size": d0, "end_size": d0 * r ** (n - 1), "c2c_expansion": r, "total_expansion": r ** (n - 1)}
 
 
+def gen_multigrading(rng, L):
+    """an edge chopped in 2-3 divisions: all uniform with unequal ratios / counts, mixed, or strongly graded"""
+    k = rng.choice([2, 2, 3])
+    ratios = {2: rng.choice([[0.3, 0.7], [0.5, 0.5], [0.6, 0.4], [0.25, 0.75]]), 3: rng.choice([[0.2, 0.5, 0.3], [0.25, 0.25, 0.5], [0.25, 0.5, 0.25]])}[k]
+    style = rng.choice(["all-uniform", "all-uniform", "mixed", "graded"])
+    chops = []
+    for lr in ratios:
+        n = rng.randint(1, 14)
+        if style == "all-uniform" or (style == "mixed" and rng.random() < 0.5):
+            kw = {"count": n} if rng.random() < 0.6 else {"count": n, "c2c_expansion": 1.0}
+        else:
+            kw = rng.choice([{"count": n, "c2c_expansion": rng.choice([0.5, 0.7, 0.9, 1.1, 1.3, 2.0])},
+                             {"count": n, "total_expansion": rng.choice([0.013, 0.3, 3.7, 41.0])},
+                             {"count": max(n, 2), "start_size": L * lr / max(n, 2) * rng.uniform(0.3, 0.95)}])
+        kw["length_ratio"] = lr
+        chops.append(kw)
+    return {"L": L, "cls": "multigrading", "chops": chops, "style": style}
+
+
+def run_multigrading(ctx, case):
+    """Grading of several divisions: the text handed to blockMesh carries the computed numbers, and the inverted grading is
+    the same physical cell sequence walked from the other end"""
+    from classy_blocks.grading.chop import Chop
+    from classy_blocks.grading.grading import Grading
+    from vf import geom
+
+    L = case["L"]
+    ctx.evaluated()
+    ctx.count("class:multigrading")
+    g = Grading(L)
+    try:
+        for kw in case["chops"]:
+            g.add_chop(Chop(**kw))
+    except ValueError:
+        ctx.count("multigrading:rejected")  # a preserved size that does not fit its division
+        return
+    spec = [list(x) for x in g.specification]
+    ctx.key(["multigrading", len(spec), case["style"], [sorted(k for k in kw if k != "length_ratio") for kw in case["chops"]]])
+    # --- the written text
+    text = g.description
+    nums = [float(x) for x in text.replace("(", " ").replace(")", " ").split()]
+    ctx.count("judged:multigrading-description")
+    flat = [x for row in spec for x in row]
+    if len(nums) != len(flat) or any(not (math.isfinite(a) and abs(a - b) <= 1e-12 * max(abs(a), abs(b))) for a, b in zip(nums, flat)):
+        ctx.violation("multigrading-description-differs-from-specification", f"L={L} chops {case['chops']}: description {text} for specification {spec}")
+        return
+    if any(row[2] <= 0 for row in [nums[i:i + 3] for i in range(0, len(nums), 3)]):
+        ctx.violation("multigrading-description-non-positive-expansion", f"L={L} chops {case['chops']}: {text}")
+        return
+    # --- inversion
+    gi = g.inverted
+    ctx.count("judged:multigrading-inverted")
+    if [list(x) for x in g.specification] != spec:
+        ctx.violation("grading-inverted-modifies-receiver", f"{spec} -> {g.specification}")
+        return
+    fwd = geom.multigrading_sizes(L, [tuple(x) for x in spec])
+    back = geom.multigrading_sizes(L, [tuple(x) for x in gi.specification])
+    if len(fwd) != len(back) or any(abs(a - b) > 1e-9 * max(a, b) for a, b in zip(fwd[::-1], back)):
+        ctx.violation("multigrading-inverted-is-not-the-reversed-cell-sequence" + (":all-divisions-uniform" if all(abs(x[2] - 1) < 1e-12 for x in spec) else ""),
+                      f"L={L} chops {case['chops']}: specification {spec}, inverted {gi.specification}")
+        return
+
+
 def gen_case(ctx):
     rng = ctx.rng
     L = 10 ** rng.uniform(-3, 3)
+    if rng.random() < 0.03:
+        return gen_multigrading(rng, L)
     pair = rng.choice(PAIRS)
     if rng.random() < 0.12:
         # unrealisable / hostile class
@@ -150,6 +216,8 @@ def run_case(ctx, case):
     from classy_blocks.grading.grading import Grading
 
     contracts.install(ctx)
+    if case["cls"] == "multigrading":
+        return run_multigrading(ctx, case)
     L, kw = case["L"], dict(case["kw"])
     pair = tuple(sorted(kw))
     ctx.evaluated()
